@@ -7,6 +7,18 @@ address translation) and by cross-invariants after every step."""
 from simkit.core import World, Violation, Refused, HarnessError
 
 NAME_PARTS = ["a", "b", "0", 0, 1]
+LONG_PARTS = ["ab", "reg", "a0", 300, 1000]      # equal values arrive as distinct objects
+
+
+def fresh(part):
+    """A new object equal to `part` (names are computed at run time in real designs: f-strings,
+    arithmetic; only short literals and small ints are shared objects in CPython)."""
+    if isinstance(part, str) and len(part) >= 2:
+        return "".join(list(part))
+    if isinstance(part, int) and not isinstance(part, bool) and part > 256:
+        return int(str(part))
+    return part
+
 
 
 def align_up(v, a):
@@ -98,8 +110,9 @@ class MemMapWorld(World):
         return {"maps": maps}
 
     def _name(self, rng):
-        n = [rng.choice(NAME_PARTS) for _ in range(rng.range(1, 3))]
-        if rng.chance(0.35):
+        pool = NAME_PARTS if not rng.chance(0.2) else LONG_PARTS
+        n = [rng.choice(pool) for _ in range(rng.range(1, 3))]
+        if rng.chance(0.35) and pool is NAME_PARTS:
             n[0] = rng.choice([0, "0"])       # roots that tie under str()
         return n
 
@@ -437,7 +450,7 @@ class MemMapWorld(World):
                     name = ["a", -1]
                 elif bad == "not_component":
                     obj = object()
-                name_t = tuple(name) if isinstance(name, list) else name
+                name_t = tuple(fresh(x) for x in name) if isinstance(name, list) else name
                 name_arg = name_t
                 if op.get("name_as") == "Name" and valid_name(name) is True:
                     # the caller keeps MemoryMap.Name constants and re-uses the same instance
@@ -547,7 +560,7 @@ class MemMapWorld(World):
                     warg = "nope"
                 elif bad == "name_badpart":
                     name = ["a", ""]
-                name_t = None if name is None else tuple(name)
+                name_t = None if name is None else tuple(fresh(x) for x in name)
                 # width rules
                 width_ok = True
                 exp_ratio = 1
